@@ -530,7 +530,11 @@ pub fn placement_of(arch: Arch, placement: u64) -> Placement {
                 Arch::Arm64 | Arch::Arm64Old => (1 << 47, (1 << 47) - 0x1000_0000),
                 Arch::Mips64 => (1 << 39, (1 << 39) + 0x1000_0000),
             };
-            Placement { name: "two modules around a power-of-two boundary (second starts exactly on it)", mods: [b - MOD_SIZE, b], bystanders: [None, None], stack, order: ListOrder::Ascending }
+            // ARM64: a return address equal to the END of the highest module that is itself a power of two is lost
+            // by the strip mask (documented in ptr_auth_strip as the improbable corner); with one module in use the
+            // first module therefore ends a little below the boundary instead of on it
+            let first = if matches!(arch, Arch::Arm64 | Arch::Arm64Old) { b - MOD_SIZE - 0x1_0000 } else { b - MOD_SIZE };
+            Placement { name: "two modules around a power-of-two boundary (second starts exactly on it)", mods: [first, b], bystanders: [None, None], stack, order: ListOrder::Ascending }
         }
         _ => panic!("harness: placement {placement} not in the menu"),
     }
@@ -621,7 +625,10 @@ pub fn build(prog: &Program) -> Result<Built, Infeasible> {
     // ---- modules and functions
     let mod_name = |k: usize| if k == 0 { "m".to_string() } else { "n".to_string() };
     let mod_base = |k: usize| pl.mods[k];
-    let frel = |i: usize| 0x1000 * ((i / nmods) as u64 + 1);
+    // function 1 is the LAST thing in its module and ends in its call: the return address into it (frame 1's
+    // resume address) is the first byte past the module, its lookup address the module's last call instruction
+    let frel = |i: usize| if i == 1 { MOD_SIZE - 0x20 } else { 0x1000 * ((i / nmods) as u64 + 1) };
+    let fsize = |i: usize| if i == 1 { 0x20u64 } else { 0x100 };
     let faddr = |i: usize| mod_base(i % nmods) + frel(i);
     let pc0 = faddr(0) + 0x10;
     let ra = |i: usize| if i + 1 < d { faddr(i + 1) + 0x20 } else { 0 };
@@ -677,7 +684,7 @@ pub fn build(prog: &Program) -> Result<Built, Infeasible> {
     // padding behind the FUNC, whose only preceding PUBLIC sits at the FUNC's own start): not a return address
     for i in 0..d {
         if tech(i) == Tech::Scan && size[i] >= 6 {
-            words[widx(sp[i]) + 1] = faddr(i) + 0x800;
+            words[widx(sp[i]) + 1] = if i == 1 { faddr(i) - 0x800 } else { faddr(i) + 0x800 };
         }
     }
     let bytes = words_to_bytes(&words, p);
@@ -689,7 +696,8 @@ pub fn build(prog: &Program) -> Result<Built, Infeasible> {
         let k = i % nmods;
         let at = frel(i);
         let s = &mut sym[k];
-        *s += &format!("FUNC {:x} 100 0 f{}\nPUBLIC {:x} 0 pub{}\n", at, i, at, i);
+        let fs = fsize(i);
+        *s += &format!("FUNC {:x} {:x} 0 f{}\nPUBLIC {:x} 0 pub{}\n", at, fs, i, at, i);
         let al = st[i].alias;
         let spn = a.cfi_name(a.sp(), al);
         match tech(i) {
@@ -705,7 +713,7 @@ pub fn build(prog: &Program) -> Result<Built, Infeasible> {
                 // at + 0x20). A record that begins exactly at the return address (the row after the call) is not
                 // yet in effect, and an INIT range that ends exactly there still covers the call.
                 if st[i].split {
-                    *s += &format!("STACK CFI INIT {:x} 100 .cfa: {} {} + .ra: .cfa {} - ^\n", at, spn, p, p);
+                    *s += &format!("STACK CFI INIT {:x} {:x} .cfa: {} {} + .ra: .cfa {} - ^\n", at, fs, spn, p, p);
                     *s += &format!("STACK CFI {:x} .cfa: {} {} +{}\n", at + 4, spn, size[i] * p, regs);
                     *s += &format!("STACK CFI {:x} .cfa: {} 0 + .ra: 0\n", at + if i == 0 { 0x11 } else { 0x20 }, spn);
                 } else {
@@ -714,7 +722,7 @@ pub fn build(prog: &Program) -> Result<Built, Infeasible> {
             }
             Tech::Leaf => {
                 let lr = a.cfi_name(a.lr().expect("harness: leaf needs lr"), al);
-                *s += &format!("STACK CFI INIT {:x} 100 .cfa: {} 0 + .ra: {}\n", at, spn, lr);
+                *s += &format!("STACK CFI INIT {:x} {:x} .cfa: {} 0 + .ra: {}\n", at, fs, spn, lr);
             }
             Tech::WinFd => {
                 let saved = 4 * (st[i].mask.count_ones() as u64);
@@ -726,13 +734,13 @@ pub fn build(prog: &Program) -> Result<Built, Infeasible> {
                         prog_s += &format!(" {} $T0 {} - ^ =", wn[r], 4 * (r + 1));
                     }
                 }
-                *s += &format!("STACK WIN 4 {:x} 100 0 0 {:x} {:x} {:x} 0 1 {}\n", at, params(i), saved, local, prog_s);
+                *s += &format!("STACK WIN 4 {:x} {:x} 0 0 {:x} {:x} {:x} 0 1 {}\n", at, fs, params(i), saved, local, prog_s);
             }
             Tech::WinFpo => {
                 let alloc = st[i].mask & 1 != 0;
                 let saved = if alloc { 8 } else { 0 };
                 let local = (size[i] - 1) * 4 - saved - gcps(i);
-                *s += &format!("STACK WIN 0 {:x} 100 0 0 {:x} {:x} {:x} 0 0 {}\n", at, params(i), saved, local, alloc as u8);
+                *s += &format!("STACK WIN 0 {:x} {:x} 0 0 {:x} {:x} {:x} 0 0 {}\n", at, fs, params(i), saved, local, alloc as u8);
             }
             Tech::Fp | Tech::Scan => {}
         }
